@@ -509,4 +509,42 @@ PROPS["C15"] = {
                   "are covered by the per-property models (explicit PANIC outcomes compared on every case) and by the mutation run.",
 }
 
+PROPS["C20"] = {
+    "lean": ["WsVerif.Props.C20", "WsVerif.Bridge.C20"],
+    "rule": "ws.Dialer.Dial against a scripted, deadline-honouring net.Conn and NetDial, in real time (unit 40 ms): background and "
+            "non-background contexts; no context end / cancel at 1,3,5 / context deadline at 3,5 units; Dialer.Timeout none, 3, 7 units "
+            "(shorter and longer than the context's own end); NetDial returning at once, after 2 units, or never (honouring its context); "
+            "the peer answering at once, after 2 units, or never; the handshake succeeding or failing with a non-timeout error - every "
+            "combination whose decisive instants do not coincide, plus 12 runs of the unforced race (handshake finishing as the context "
+            "ends, either outcome legal). Observed: error class, whether NetDial connected, Close called, the last SetDeadline (never / zero "
+            "/ past / future), return later than the limit + 1.5 units, forced termination after 14 units, a goroutine still inside "
+            "setupContextDeadliner, any conn method called within a unit after Dial returned.",
+    "exhaustive_families": ["timeline grid (thorough: all; quick: failing-handshake variants halved)"],
+    "trusted_base": [
+        "Model/Dial.lean: a discrete-time model of Dial's control flow (dial-phase context, background fast path, watcher, done(&err), "
+        "deferred Close) written by hand; the Go scheduler, timers and net deadlines are abstracted to 'the earlier instant wins' and one "
+        "explicit scheduling input for the tie; tied by correspondence on the timeline grid and by Bridge.C20 (the source-order lists of "
+        "Dial's and setupContextDeadliner's conditions, calls, go/select arms and channel sends regenerated from the source)",
+        "real time: instants are 40 ms apart and lateness is judged with a 60 ms margin; a loaded machine can blur that - the cases whose "
+        "instants coincide are excluded from the exact comparison",
+        "crypto/tls and the real net package are outside",
+    ],
+    "assumptions": COMMON_ASSUME + [
+        "the connection honours deadlines and Close unblocks I/O (the scripted conn does)",
+        "'no limit at all and a silent peer' is not run: Dial is entitled to wait for ever",
+        "an I/O error that is not a timeout is reported as it is even if the context has ended by then (the statement's 'the error is the "
+        "context's error' is read for I/O interrupted by the context, as the code comments say)",
+    ],
+    "level_text": "Kernel-checked on the model, for EVERY combination of context kind, Timeout, end instant, NetDial and handshake durations "
+                  "(incl. a silent peer), handshake failure and the watcher's scheduling choice: a nil error comes with a connection not "
+                  "closed and deadlines cleared or never set - never poisoned; a non-nil error after NetDial succeeded comes with the "
+                  "connection closed; whenever the context ends or a Timeout is set, Dial returns by the earlier of the two, also with a "
+                  "silent peer; if that instant precedes the end of the handshake I/O the error is that context's error (canceled / deadline "
+                  "exceeded); the watcher has replied whenever Dial returns. The model is a hand abstraction of the runtime (PARTIAL: the "
+                  "scheduler is not modelled beyond the one tie). The unchanged tree violated the property: F13 (with any non-background "
+                  "context Dialer.Timeout was not applied to the handshake: a silent peer blocked Dial beyond Timeout) - found by the "
+                  "oracle (late / hung), repaired by fix commit 26ae365.",
+    "level_note": "Trusted: Lean kernel, Model/Dial.lean as an abstraction of goroutines and timers, harness timing.",
+}
+
 NOT_APPLICABLE = {}
